@@ -1,11 +1,31 @@
 import SaModel.Build.Finish
 import SaModel.Spec.Interp
+import SaModel.Props.C03
+import SaModel.Props.C01
+import SaModel.Props.C02
+import SaModel.Lemmas.C05Exact
+import SaModel.Lemmas.C05ReadStruct
 /-
-C05 — values a column cannot represent are rejected, never silently altered (serializer side).
+C05 — values a column cannot represent are rejected, never silently altered.
 Property theorems about the builder model (SaModel/Build) — every statement is ∀ over values, widths, states.
+
+  per mechanism   integer ranges, null into non-nullable, missing / duplicate fields, fixed-size counts, variants,
+                  offsets, dictionary keys (first part of the file)
+  umbrella        `C05_push_ok_exact` / `C05_interp_undefined_rejected` (one push, any nesting), `C05_toMarrow_ok_exact` /
+                  `C05_toMarrow_undefined_rejected` (whole `to_marrow` run): ok ⇒ the documented value `Spec.interp`
+                  is defined and is what the arrays hold; undefined ⇒ never accepted.  Corollaries of R2 / R3
+                  (Props/C01.lean) and `C01_build_decode` (Props/C01.lean), with their coverage.
+  lossy cells     `documentedLossy` (float narrowing, int → float, decimal columns from text / floats) and
+                  `C05_only_documented_lossy`: in every other cell `Spec.interpScalar` is the identity on the value
+                  (`Faithful`) or an error; `C05_lossy_cells_alter`: each lossy family does alter a value (witnesses)
+  reader          `read_mustFail`: whenever the value-level specification `Read.cast` says a typed read must fail
+                  (integer out of the target's range, not a char, null into a non-Option target, tuple longer than the
+                  struct, missing field, unknown variant …, at any depth), `readAs` fails — for every (target, column)
+                  pair except the two recorded known findings, excluded by the decidable `noKnown`;
+                  `exclusion_23_needed` / `exclusion_24_needed`: witnesses that both exclusions are needed
 -/
 namespace SaModel.Props.C05
-open SaModel SaModel.Build
+open SaModel SaModel.Build SaModel.Spec
 
 /-- an integer of any source width is accepted by an integer column iff it is in the column's range, and then
 it is stored unchanged (no wrap, no truncation) -/
@@ -233,11 +253,328 @@ theorem dict_key_overflow (ext : Ext) (p : String) (t : IntTy) (v : Validity) (k
     (pushScalar ext (.leaf p (.int t) v keys) (.int .u64 i)).isErr = true := by
   simp [pushScalar, convLeaf, tryInto, h, fail, R.isErr, bind, Except.bind]
 
+/-! ## the umbrella: ok ⇒ exact, undefined ⇒ rejected -/
+
+/-- **ok ⇒ exact (one push).**  If a push of ANY serde value `x` (any nesting) into a builder built for the field
+`(dt, n, md)` succeeds, the documented mapping `Spec.interpDT` is defined on `x` and the builder holds exactly its
+previous rows followed by that value: nothing wrapped, truncated, defaulted or dropped.  Hypotheses are those of R2
+(`Props.C01.push_interp`): the state invariant `WFB`, the schema condition `Safe`, `Shape` (the builder is the one
+`build_builder` makes for the field; covers every family except view types and dictionaries) and `noRaw` (no raw
+key/value call streams inside `x`). -/
+theorem C05_push_ok_exact (ext : Ext) (x : SVal) (b b' : B) (dt : DataType) (n : Bool) (md : Metadata)
+    (hraw : noRaw x = true) (hwf : WFB b) (hsafe : Safe b) (hshape : Shape b dt n md) (h : push ext b x = .ok b') :
+    ∃ lv, interpDT ext dt n md x = .ok lv ∧ dec b' = dec b ++ [lv] := by
+  obtain ⟨_, _, _, lv, hd, hi⟩ := Props.C01.push_interp ext x b b' dt n md hraw hwf hsafe hshape h
+  exact ⟨lv, hi, hd⟩
+
+/-- **undefined ⇒ rejected (one push).**  A value the documented mapping does not define for the field (out of range,
+null for a non-nullable field, missing / duplicate field, wrong count, unknown variant, wrong kind …, at any depth) is
+never accepted. -/
+theorem C05_interp_undefined_rejected (ext : Ext) (x : SVal) (b : B) (dt : DataType) (n : Bool) (md : Metadata)
+    (hraw : noRaw x = true) (hwf : WFB b) (hsafe : Safe b) (hshape : Shape b dt n md)
+    (e : Fail) (hu : interpDT ext dt n md x = .error e) : ∀ b', push ext b x ≠ .ok b' := by
+  intro b' h
+  obtain ⟨lv, hi, _⟩ := C05_push_ok_exact ext x b b' dt n md hraw hwf hsafe hshape h
+  rw [hu] at hi
+  cases hi
+
+/-- the same for a freshly built builder: `Shape`, `WFB` come from `build_builder` -/
+theorem C05_new_interp_undefined_rejected (ext : Ext) (x : SVal) (path : String) (dt : DataType) (n : Bool)
+    (md : Metadata) (b : B) (hc : covered dt = true) (hnew : newDT path dt n md = .ok b) (hsafe : Safe b)
+    (hraw : noRaw x = true) (e : Fail) (hu : interpDT ext dt n md x = .error e) : ∀ b', push ext b x ≠ .ok b' :=
+  C05_interp_undefined_rejected ext x b dt n md hraw (Props.C01.newDT_fresh dt path n md b hnew).1 hsafe
+    (Props.C01.newDT_shape dt path n md b hc hnew) e hu
+
+/-- **ok ⇒ exact (`to_marrow`).**  If `to_marrow` succeeds, EVERY input record has a documented value
+(`interpRow` is defined: every field of every record, at every depth, was representable in its column) and the
+returned arrays decode — Arrow reading rules — to exactly those values: row `i` is the struct whose `j`-th field is
+slot `i` of column `j`.  Hypotheses and coverage are those of `Props.C01.C01_build_decode`. -/
+theorem C05_toMarrow_ok_exact (ext : Ext) (fields : List Field) (rows : List SVal) (arrs : List Arr)
+    (hmap : ∀ f ∈ fields, Lemmas.C03.Map2F f) (hschema : ∀ f ∈ fields, Lemmas.C03.SchemaOKF f)
+    (hcov : fields.all Build.coveredF = true)
+    (hsafe : ∀ root0, newRoot fields = .ok root0 → Safe root0)
+    (hraw : ∀ x ∈ rows, Build.noRaw x = true)
+    (h : toMarrow ext fields rows = .ok arrs) :
+    (∀ x ∈ rows, ∃ lv, interpRow ext fields x = .ok lv) ∧
+    ∃ cols : List (String × List LVal),
+      arrs.map decodeAll = cols.map (fun c => c.2.map .ok) ∧
+      cols.map (·.1) = fields.map (·.name) ∧
+      (∀ c ∈ cols, c.2.length = rows.length) ∧
+      ∀ (i : Nat) (hi : i < rows.length),
+        interpRow ext fields rows[i] = .ok (.struct (LFields.ofList (cols.map fun c => (c.1, c.2.getD i .null)))) := by
+  obtain ⟨_, cols, h1, h2, h3, h4⟩ := Props.C01.C01_build_decode ext fields rows arrs hmap hschema hcov hsafe hraw h
+  refine ⟨?_, cols, h1, h2, h3, h4⟩
+  intro x hx
+  obtain ⟨i, hi, rfl⟩ := List.getElem_of_mem hx
+  exact ⟨_, h4 i hi⟩
+
+/-- **undefined ⇒ rejected (`to_marrow`).**  One record without a documented value anywhere in the batch makes the
+whole call fail: no array is returned.  Needs only the hypotheses of R3 (`Props.C01.runRows_interp`). -/
+theorem C05_toMarrow_undefined_rejected (ext : Ext) (fields : List Field) (rows : List SVal)
+    (hcov : fields.all Build.coveredF = true)
+    (hsafe : ∀ root0, newRoot fields = .ok root0 → Safe root0)
+    (hraw : ∀ x ∈ rows, Build.noRaw x = true)
+    (hu : ∃ (i : Nat) (hi : i < rows.length) (e : Fail), interpRow ext fields rows[i] = .error e) :
+    ∀ arrs, toMarrow ext fields rows ≠ .ok arrs := by
+  intro arrs h
+  obtain ⟨i, hi, e, he⟩ := hu
+  obtain ⟨root, hrun, _⟩ := Props.C03.toMarrow_split ext fields rows arrs h
+  have h0 : ∃ root0, newRoot fields = .ok root0 := by
+    simp only [runRows] at hrun
+    cases hr : newRoot fields with
+    | error e => rw [hr] at hrun; cases hrun
+    | ok r0 => exact ⟨r0, rfl⟩
+  obtain ⟨root0, h0⟩ := h0
+  obtain ⟨hall, _⟩ := Props.C01.runRows_interp ext fields rows root0 root hcov h0 (hsafe root0 h0) hraw hrun
+  obtain ⟨hl, hg⟩ := Props.C03.All2_get hall
+  have := hg i (by rw [hl]; exact hi) hi
+  rw [he] at this
+  cases this
+
+/-! ## the documented lossy cells are the only cells that alter a value
+
+Every leaf of `Spec.interpDT` goes through `Spec.interpScalar` (scalars, the bytes of a binary value presented as a
+list) or is structural (records by name, sequences element by element, `u8All` for bytes given as a sequence:
+`u8_exact` above).  `documentedLossy` (Lemmas/C05Exact.lean) lists the cells (leaf kind of the column, serde scalar call)
+the documentation declares lossy; in every other cell the logical value `interpScalar` defines is the value presented
+(`Faithful`: same number / same float bits or the IEEE widening / same text or `to_string()` of the scalar / same
+bytes / what the temporal codec returns for the text — whose own exactness is C14) or there is no value (error). -/
+
+/-- at the storage level (`convLeaf`: what a leaf builder stores for a scalar call) -/
+theorem C05_leaf_only_documented_lossy (ext : Ext) (k : LeafKind) (x : SVal) :
+    documentedLossy k x = true ∨ (∃ e, convLeaf ext k x = .error e) ∨
+      ∃ w, convLeaf ext k x = .ok w ∧ StoredExact ext k x w := by
+  cases hl : documentedLossy k x with
+  | true => exact .inl rfl
+  | false =>
+    cases hc : convLeaf ext k x with
+    | error e => exact .inr (.inl ⟨e, rfl⟩)
+    | ok w => exact .inr (.inr ⟨w, rfl, convLeaf_exact ext k x w hc hl⟩)
+
+/-- **only the documented cells are lossy** (specification level): for every column type and every scalar call, the
+cell is a documented lossy one, or the mapping is undefined (⇒ rejected, `C05_interp_undefined_rejected`), or the
+logical value is the value presented. -/
+theorem C05_only_documented_lossy (ext : Ext) (dt : DataType) (x : SVal) :
+    documentedLossyDT dt x = true ∨ (∃ e, interpScalar ext dt x = .error e) ∨
+      ∃ lv, interpScalar ext dt x = .ok lv ∧ Faithful ext dt x lv := by
+  cases hl : documentedLossyDT dt x with
+  | true => exact .inl rfl
+  | false =>
+    cases hc : interpScalar ext dt x with
+    | error e => exact .inr (.inl ⟨e, rfl⟩)
+    | ok lv => exact .inr (.inr ⟨lv, rfl, interpScalar_faithful ext dt x lv hc hl⟩)
+
+/-- the exclusion is needed: each documented family does alter a value.  2^24+1 as f32 is 2^24; the f64 nearest to 0.1
+narrowed to f32 and widened back is another f64; 65520 (f32) overflows f16 to +inf. -/
+theorem C05_lossy_cells_alter :
+    documentedLossy .f32 (.int .i64 16777217) = true ∧
+    convLeaf {} .f32 (.int .i64 16777217) = convLeaf {} .f32 (.int .i64 16777216) ∧
+    documentedLossy .f32 (.f64 0x3FB999999999999A) = true ∧
+    (do let w ← convLeaf {} .f32 (.f64 0x3FB999999999999A); convLeaf {} .f64 (.f32 w.toNat)) = .ok 0x3FB99999A0000000 ∧
+    documentedLossy .f16 (.f32 0x477FF000) = true ∧ convLeaf {} .f16 (.f32 0x477FF000) = .ok 0x7C00 := by
+  decide +kernel
+
 /-! ### non-vacuity -/
+
+/-- `C05_push_ok_exact` / `C05_interp_undefined_rejected` on a nested state (`Props.C01.exList`: nullable list of
+non-nullable Int32): an out-of-range element deep in the value has no documented value, and the push is refused -/
+example : (interpDT {} (.list (.mk "element" .int32 false [])) true []
+    (.seq (.cons (.int .i8 5) (.cons (.int .i64 2147483648) .nil)))).isErr = true := by decide +kernel
+example : (push {} Props.C01.exList (.seq (.cons (.int .i8 5) (.cons (.int .i64 2147483648) .nil)))).isErr = true := by
+  decide +kernel
+example : (interpDT {} (.list (.mk "element" .int32 false [])) true []
+    (.seq (.cons (.int .i8 5) (.cons .none .nil)))).isErr = true := by decide +kernel
+
+/-- `C05_toMarrow_undefined_rejected`: the second record misses the non-nullable field `l` -/
+example : (interpRow {} Props.C03.exFields (.record "R" (.cons "a" 0 (.int .i32 1) .nil))).isErr = true := by
+  decide +kernel
+
+/-- faithful cells of every class -/
+example : Faithful {} .int8 (.int .u64 7) (.int 7) := .int (k := .int .i8) rfl rfl
+example : Faithful {} .uint16 (.char 955) (.int 955) := .int (k := .int .u16) rfl rfl
+example : Faithful {} .float64 (.f32 0x3F800000) (.float 0x3FF0000000000000) := by
+  have h := Faithful.widen (ext := {}) 0x3F800000
+  rw [show Float.convert Float.f32 Float.f64 0x3F800000 = 0x3FF0000000000000 from by decide +kernel] at h
+  exact h
+example : interpScalar {} .largeUtf8 (.int .i16 (-12)) = .ok (.str (strBytes "-12")) := by decide +kernel
+
 example : convLeaf {} (.int .i8) (.int .i64 127) = .ok 127 := by decide
 example : (convLeaf {} (.int .i8) (.int .i64 128)).isErr = true := by decide
 example : (convLeaf {} (.int .u8) (.int .i8 (-1))).isErr = true := by decide
 example : u8Of (.some (.int .i32 255)) = .ok 255 := by decide
 example : (u8Of (.int .i32 256)).isErr = true := by decide
+
+/-! ## reader direction: what `cast` says must fail, fails
+
+Proof: `Lemmas/C05ReadLeaf.lean` (scalar targets), `C05ReadCont.lean` (`noKnown`, `Option`, newtype, sequences),
+`C05ReadCont2.lean` (tuples, maps, enums), `C05ReadStruct.lean` (structs by field name); structural recursion over the
+target here. -/
+
+section Reader
+open SaModel.Read
+
+mutual
+theorem read_rej : ∀ (t : Target), Rej t
+  | .any => rej_any
+  | .ignored => rej_ignored
+  | .unit => rej_scalar (m := .unit) rfl (fun _ _ => by simp only [Read.cast])
+      (fun a lv _ => intAsBool_not_bool (by simp) a lv) (fun _ _ => by simp only [readAs])
+  | .unitStruct => rej_scalar (m := .unitStruct) rfl (fun _ _ => by simp only [Read.cast])
+      (fun a lv _ => intAsBool_not_bool (by simp) a lv) (fun _ _ => by simp only [readAs])
+  | .bool => rej_scalar (m := .bool) rfl (fun _ _ => by simp only [Read.cast])
+      (fun a lv h => by simpa [noKnown] using h) (fun _ _ => by simp only [readAs])
+  | .int ty => rej_scalar (m := .int ty) rfl (fun _ _ => by simp only [Read.cast])
+      (fun a lv _ => intAsBool_not_bool (by simp) a lv) (fun _ _ => by simp only [readAs])
+  | .f32 => rej_scalar (m := .f32) rfl (fun _ _ => by simp only [Read.cast])
+      (fun a lv _ => intAsBool_not_bool (by simp) a lv) (fun _ _ => by simp only [readAs])
+  | .f64 => rej_scalar (m := .f64) rfl (fun _ _ => by simp only [Read.cast])
+      (fun a lv _ => intAsBool_not_bool (by simp) a lv) (fun _ _ => by simp only [readAs])
+  | .char => rej_scalar (m := .char) rfl (fun _ _ => by simp only [Read.cast])
+      (fun a lv _ => intAsBool_not_bool (by simp) a lv) (fun _ _ => by simp only [readAs])
+  | .string => rej_scalar (m := .string) rfl (fun _ _ => by simp only [Read.cast])
+      (fun a lv _ => intAsBool_not_bool (by simp) a lv) (fun _ _ => by simp only [readAs])
+  | .str => rej_scalar (m := .str) rfl (fun _ _ => by simp only [Read.cast])
+      (fun a lv _ => intAsBool_not_bool (by simp) a lv) (fun _ _ => by simp only [readAs])
+  | .bytes => rej_bytes
+  | .byteBuf => rej_byteBuf
+  | .option t => rej_option (read_rej t)
+  | .newtype t => rej_newtype (read_rej t)
+  | .seq t => rej_seq (read_rej t)
+  | .tuple ts => rej_tuple (targets_rej ts)
+  | .tupleStruct ts => rej_tupleStruct (targets_rej ts)
+  | .map k v => rej_map (read_rej k) (read_rej v)
+  | .struct tfs => rej_struct (tfields_rej tfs)
+  | .enum _ vs => rej_enum (variants_rej vs)
+theorem targets_rej : ∀ (ts : Targets), ∀ t ∈ Targets.toList ts, Rej t
+  | .nil, t, h => by simp [Targets.toList] at h
+  | .cons t' rest, t, h => by
+    simp only [Targets.toList, List.mem_cons] at h
+    rcases h with h | h
+    · rw [h]; exact read_rej t'
+    · exact targets_rej rest t h
+theorem tfields_rej : ∀ (tfs : TFields), ∀ p ∈ TFields.toList tfs, Rej p.2
+  | .nil, p, h => by simp [TFields.toList] at h
+  | .cons n t' rest, p, h => by
+    simp only [TFields.toList, List.mem_cons] at h
+    rcases h with h | h
+    · rw [h]; exact read_rej t'
+    · exact tfields_rej rest p h
+theorem variants_rej : ∀ (vs : TVariants), ∀ p ∈ TVariants.toList vs, KRej p.2
+  | .nil, p, h => by simp [TVariants.toList] at h
+  | .cons n k rest, p, h => by
+    simp only [TVariants.toList, List.mem_cons] at h
+    rcases h with h | h
+    · rw [h]; exact kind_rej k
+    · exact variants_rej rest p h
+theorem kind_rej : ∀ (k : VKind), KRej k
+  | .unit => krej_unit
+  | .newtype t => krej_newtype (read_rej t)
+  | .tuple ts => krej_tuple (targets_rej ts)
+  | .struct tfs => krej_struct (tfields_rej tfs)
+end
+
+/-- **C05, reading direction.**  For EVERY target type `t` (scalars, `Option`, newtype, `Vec`, tuples, maps, structs by
+field name, enums by name or index, nested to any depth), EVERY array `a` and slot `i` whose Arrow reading is defined
+(`decodeAt a i = ok lv`), under the hypotheses of `Props.C02.read_typed_decode` (the reader was built, lengths are
+representable, strings are UTF-8): if the value-level specification says the value has no exact representation in `t`
+(`cast t a lv` is an error: `mustFail _`), the typed read fails — it never returns a wrapped, truncated, defaulted or
+hidden value.  `noKnown t a lv` excludes exactly the two recorded known findings (#23 a null container slot into a
+non-`Option` container target, #24 an integer column read as `bool`), wherever they occur inside the value. -/
+theorem read_mustFail (t : Target) (a : Arr) (i : Nat) (lv : LVal) (why : String)
+    (hc : Read.cast t a lv = mustFail why) (h : decodeAt a i = .ok lv)
+    (hn : new Fixes.all a = .ok ()) (hp : physical a = true) (hu : utf8Ok lv = true)
+    (hk : noKnown t a lv = true) : ∃ e, readAs Fixes.all t a i = .error e :=
+  isOk_false_iff.1 (read_rej t a i lv _ h hn hp hu hk hc)
+
+/-- the same for any error claim, with the materialising oracle `Spec.decode` -/
+theorem read_mustFail_spec (t : Target) (a : Arr) (i : Nat) (lv : LVal) (e0 : Fail)
+    (hc : Read.cast t a lv = .error e0) (h : Spec.decode a i = .ok lv)
+    (hn : new Fixes.all a = .ok ()) (hp : physical a = true) (hu : utf8Ok lv = true)
+    (hk : noKnown t a lv = true) : ∃ e, readAs Fixes.all t a i = .error e :=
+  isOk_false_iff.1 (read_rej t a i lv _ (Props.C02.decode_eq_decodeAt a i ▸ h) hn hp hu hk hc)
+
+/-- typed reads are exact or fail: with `Props.C02.read_typed_decode`, wherever `cast` makes a claim about a slot
+(`must d` or `mustFail`), a successful read returned exactly the claimed value -/
+theorem read_ok_exact (t : Target) (a : Arr) (i : Nat) (lv : LVal) (d : DVal) (c : Option DVal)
+    (h : decodeAt a i = .ok lv) (hn : new Fixes.all a = .ok ()) (hp : physical a = true) (hu : utf8Ok lv = true)
+    (hk : noKnown t a lv = true) (hr : readAs Fixes.all t a i = .ok d) :
+    (∀ e, Read.cast t a lv ≠ .error e) ∧ (Read.cast t a lv = .ok c → c = none ∨ c = some d) := by
+  constructor
+  · intro e hc
+    have := read_rej t a i lv e h hn hp hu hk hc
+    rw [hr] at this; cases this
+  · intro hc
+    cases c with
+    | none => exact .inl rfl
+    | some d' =>
+      have := Props.C02.read_typed_decode t a i lv d' h hn hp hu hc
+      rw [hr] at this; cases this; exact .inr rfl
+
+/-- integer / float / … targets never read a string or binary column: those readers implement none of the numeric
+`deserialize_*` methods (`cast` makes no claim there: the pair is unsupported, and it is refused) -/
+theorem read_text_as_number_fails (t : Target) (ht : (∃ ty, t = .int ty) ∨ t = .f32 ∨ t = .f64 ∨ t = .bool ∨ t = .char)
+    (a : Arr) (ha : (∃ ty v offs data, a = .bytes ty v offs data) ∨ (∃ ty v views bufs, a = .bytesView ty v views bufs) ∨
+      (∃ n v data, a = .fixedSizeBinary n v data) ∨ (∃ ks vs, a = .dictionary ks vs)) (i : Nat) :
+    ∃ e, readAs Fixes.all t a i = .error e := by
+  apply isOk_false_iff.1
+  rcases ht with ⟨ty, rfl⟩ | rfl | rfl | rfl | rfl <;>
+  rcases ha with ⟨ty', v, offs, data, rfl⟩ | ⟨ty', v, views, bufs, rfl⟩ | ⟨n, v, data, rfl⟩ | ⟨ks, vs, rfl⟩ <;>
+    (simp only [readAs]; unfold scalar;
+     first
+      | (simp [notImpl, fail, bind, Except.bind, R.isOk]; done)
+      | (split <;> simp [notImpl, fail, bind, Except.bind, R.isOk]))
+
+/-! ### the exclusions are needed (known findings #23, #24) -/
+
+/-- #23: the slot is null, `cast` says the read must fail, `noKnown` is false, the code returns the hidden `(42,)` -/
+theorem exclusion_23_needed :
+    let a : Arr := .struct 1 (some ⟨[0], 0⟩) (.cons ⟨"x", false, []⟩ (.prim .int32 none [42]) .nil)
+    let t : Target := .tuple (.cons (.int .i32) .nil)
+    decodeAt a 0 = .ok .null ∧ new Fixes.all a = .ok () ∧ physical a = true ∧
+    Read.cast t a .null = mustFail "null into a non-Option target" ∧ noKnown t a .null = false ∧
+    readAs Fixes.all t a 0 = .ok (.seq (.cons (.int .i32 42) .nil)) := by decide
+
+/-- #24: Int32 value 2 read as `bool`: `cast` says the read must fail, `noKnown` is false, the code returns `true` -/
+theorem exclusion_24_needed :
+    let a : Arr := .prim .int32 none [2]
+    decodeAt a 0 = .ok (.int 2) ∧ new Fixes.all a = .ok () ∧ physical a = true ∧
+    Read.cast .bool a (.int 2) = mustFail "not a bool" ∧ noKnown .bool a (.int 2) = false ∧
+    readAs Fixes.all .bool a 0 = .ok (.bool true) := by decide
+
+/-! ### non-vacuity: the classes of the property, each meeting every hypothesis of `read_mustFail` (computed) -/
+
+def rdLv (a : Arr) (i : Nat) : LVal := match decodeAt a i with | .ok lv => lv | .error _ => .null
+
+def isMustFail : Claim → Bool
+  | .error _ => true
+  | _ => false
+
+/-- (target, column, slot) triples: integer widths in both directions, char from u32, null into non-Option leaf
+targets, tuple longer than the struct, missing field, unknown variant name / index, an offending element deep inside -/
+def rdCases : List (Target × Arr × Nat) :=
+  [ (.int .i8, .prim .int32 none [128], 0), (.int .u8, .prim .int8 none [-1], 0),
+    (.int .u32, .prim .int64 none [4294967296], 0), (.int .i64, .prim .uint64 none [9223372036854775808], 0),
+    (.int .i16, .prim .uint16 none [32768], 0), (.int .i32, .prim .date64 none [2147483648], 0),
+    (.char, .prim .uint32 none [55296], 0), (.char, .prim .uint32 none [1114112], 0), (.char, .prim .int64 none [-1], 0),
+    (.int .i32, .prim .int32 (some ⟨[0], 0⟩) [7], 0), (.string, .bytes .utf8 (some ⟨[0], 0⟩) [0, 0] [], 0),
+    (.bool, .boolean 1 (some ⟨[0], 0⟩) ⟨[1], 0⟩, 0), (.f64, .prim .float64 (some ⟨[0], 0⟩) [0], 0),
+    (.tuple (.cons (.int .i32) (.cons (.int .i32) .nil)),
+      .struct 1 none (.cons ⟨"x", false, []⟩ (.prim .int32 none [42]) .nil), 0),
+    (.struct (.cons "y" (.int .i32) .nil), .struct 1 none (.cons ⟨"x", false, []⟩ (.prim .int32 none [42]) .nil), 0),
+    (.enum false (.cons "A" .unit .nil), .bytes .utf8 none [0, 1] [66], 0),
+    (.enum false (.cons "A" .unit .nil),
+      .union [1] (some [0]) (.cons 0 ⟨"A", false, []⟩ (.null 0) (.cons 1 ⟨"B", false, []⟩ (.null 1) .nil)), 0),
+    (.enum true (.cons "A" .unit .nil),
+      .union [1] (some [0]) (.cons 0 ⟨"A", false, []⟩ (.null 0) (.cons 1 ⟨"B", false, []⟩ (.null 1) .nil)), 0),
+    (.seq (.struct (.cons "x" (.option (.int .u8)) .nil)),
+      .list false none [0, 2] ⟨"element", false, []⟩
+        (.struct 2 none (.cons ⟨"x", true, []⟩ (.prim .int32 (some ⟨[3], 0⟩) [1, 256]) .nil)), 0) ]
+
+example : ∀ c ∈ rdCases, decodeAt c.2.1 c.2.2 = .ok (rdLv c.2.1 c.2.2) ∧ new Fixes.all c.2.1 = .ok () ∧
+    physical c.2.1 = true ∧ utf8Ok (rdLv c.2.1 c.2.2) = true ∧ noKnown c.1 c.2.1 (rdLv c.2.1 c.2.2) = true ∧
+    isMustFail (Read.cast c.1 c.2.1 (rdLv c.2.1 c.2.2)) = true ∧ (readAs Fixes.all c.1 c.2.1 c.2.2).isOk = false := by
+  decide +kernel
+
+end Reader
 
 end SaModel.Props.C05
